@@ -314,7 +314,7 @@ def explore(h, pi, stack, bound, budget, order="rr", jump=False, rerun_stride=50
         delay = h.cost == "delay"
         for i in range(len(prefix), len(tr)):
             n, c, ren = tr[i]
-            step = 1 if (delay or ren) else 0
+            step = 0 if ren is None else (1 if (delay or ren) else 0)
             if cost + step > bound:
                 continue
             ex = (i, x.hashes[i])
